@@ -213,7 +213,7 @@ def programs_for(tier, seed):
             # the variable is sometimes named like a builtin that functions of other modules / programs call
             # (the programs evaluated earlier in the "after_k_other_evaluations" variants do; this one does not)
             vname = ["V3", "max", "filter", "format"][(i // 3) % 4]
-            vid = gen.add_var(p, p["_ids"]["leaf"], vname, list(gen.VAR_KINDS)[i % len(gen.VAR_KINDS)])
+            vid = gen.add_var(p, p["_ids"]["leaf"], vname, list(gen.VAR_KINDS)[(7 + i // 3) % len(gen.VAR_KINDS)])
             p["order"][p["_ids"]["leaf"]].remove(("var", vid))
             p["order"][p["_ids"]["leaf"]].insert(0, ("var", vid))
             p["fns"][p["_ids"]["h2"]]["reads"].append([vid, "bare"])
@@ -251,6 +251,10 @@ def run(tier, seed):
     # the program evaluated right before calls Python builtins whose names some target programs use for module variables
     for f in others[0]["fns"].values():
         f["uses_builtins"] = True
+    # ... and reads tuples that are equal to, but not the same as, tuples of the target programs ((1.0, 2.0) == (1, 2))
+    for nm, val in (("OV_FLOATS", "(1.0, 2.0)"), ("OV_BOOLS", "(True, 2)")):
+        ov = gen.add_var(others[0], others[0]["fns"][others[0]["entry"]]["module"], nm, "tuplef", value=val)
+        others[0]["fns"][others[0]["entry"]]["reads"].append([ov, "bare"])
     jobs = [("prog", (i, p, others, tier)) for i, p in enumerate(ps)]
     if os.path.exists(CORPUS):
         with open(CORPUS) as f:
@@ -281,6 +285,9 @@ def replay(payload):
         others = [progs.random_program(core.rng_for(0, "c03o", i), "c3o%d" % i) for i in range(8)]
         for f in others[0]["fns"].values():
             f["uses_builtins"] = True
+        for nm, val in (("OV_FLOATS", "(1.0, 2.0)"), ("OV_BOOLS", "(True, 2)")):
+            ov = gen.add_var(others[0], others[0]["fns"][others[0]["entry"]]["module"], nm, "tuplef", value=val)
+            others[0]["fns"][others[0]["entry"]]["reads"].append([ov, "bare"])
         rep.merge(program_job((0, c["program"], others, "thorough")))
     else:
         with open(CORPUS) as f:
